@@ -31,7 +31,7 @@ const (
 	c18T2 = 150 * time.Millisecond
 	// c18MaxLag: see runC18.fail - the slack the fault plan has against the shortest protocol window (the
 	// delayed ACK lands 40 ms after the sender's T2 expiry)
-	c18MaxLag = 30 * time.Millisecond
+	c18MaxLag = 20 * time.Millisecond
 )
 
 type c18Fault struct {
@@ -281,20 +281,34 @@ func (b *c18Box) pump(dir string, from, to net.Conn, done chan<- struct{}) {
 	buf := make([]byte, 512)
 	for {
 		n, err := from.Read(buf)
+		// Everything read in one piece is forwarded in one piece: forwarding character by character
+		// lets the scheduler open gaps of more than T1 INSIDE a block on a busy machine - a fault
+		// nobody planned (and with a ghost block in the tail, one E4 cannot survive).
+		var pending []byte
+		flush := func() bool {
+			if len(pending) == 0 {
+				return true
+			}
+			_, werr := to.Write(pending)
+			pending = pending[:0]
+			return werr == nil
+		}
 		for i := 0; i < n; i++ {
 			out, delay := b.process(dir, buf[i])
 			if delay > 0 {
+				if !flush() {
+					return
+				}
 				st := time.Now()
 				time.Sleep(delay)
 				if b.lag != nil {
 					b.lag.Note(time.Since(st) - delay)
 				}
 			}
-			if len(out) > 0 {
-				if _, werr := to.Write(out); werr != nil {
-					return
-				}
-			}
+			pending = append(pending, out...)
+		}
+		if !flush() {
+			return
 		}
 		if err != nil {
 			return
